@@ -289,8 +289,8 @@ func runOne(bin string, prog string, val uint64, gmp int, opt Options) Run {
 	}
 	if err != nil || r.Crashed {
 		s := se.String()
-		if len(s) > 6000 {
-			s = s[:6000]
+		if len(s) > 60000 {
+			s = s[:60000]
 		}
 		r.Stderr = s
 	}
